@@ -402,6 +402,7 @@ type c02Feat struct {
 	inRangeImpure bool // ... whose left operand contains a call or allocates
 	inRangeNarrow bool // ... whose left operand is statically int8 / int16 / int32
 	rangeOverflow bool // range with constant bounds whose size overflows int64
+	rangeBeyond   bool // constant range of more than 10^6 elements that is not the right operand of in / not in
 	bigConst      bool // folded array / constant range (the budget is not charged)
 	constCall     bool
 	pows          [][2]float64
@@ -507,6 +508,12 @@ func c02Features(root ast.Node, consts []string) c02Feat {
 		i, ok := n.(*ast.IntegerNode)
 		return ok && i.Type() != nil && pred(i.Type().Kind())
 	}
+	inSiteRange := map[ast.Node]bool{}
+	c02Each(&root, func(x ast.Node) {
+		if n, ok := x.(*ast.BinaryNode); ok && (n.Operator == "in" || n.Operator == "not in") {
+			inSiteRange[n.Right] = true
+		}
+	})
 	c02Each(&root, func(x ast.Node) {
 		switch n := x.(type) {
 		case *ast.UnaryNode:
@@ -549,6 +556,8 @@ func c02Features(root ast.Node, consts []string) c02Feat {
 					f.bigConst = true
 					if (hi >= lo && hi-lo+1 <= 0) || (hi < lo && hi-lo+1 > 0) {
 						f.rangeOverflow = true
+					} else if hi-lo+1 > 1000000 && !inSiteRange[x] {
+						f.rangeBeyond = true
 					}
 				}
 			case "in", "not in":
@@ -1171,6 +1180,8 @@ func c02Classify(f c02Feat, r0, r1 coreRun, skip map[string]bool) string {
 	}
 	budget := "memory budget exceeded"
 	switch {
+	case strings.Contains(msg0, budget) && f.rangeBeyond && r1.err == nil:
+		return "C02-budget-beyond-window" // a constant range of more than 10^6 elements must be left to the run-time budget
 	case strings.Contains(msg0, budget) && f.bigConst:
 		return "C02-budget" // constants materialised at compile time are not charged at run time
 	case strings.Contains(msg0, budget) && f.inRangeSite:
